@@ -56,7 +56,7 @@ structure FieldSpec where
   ty : FType
   width : Nat
   res : Res
-  deriving Repr, Inhabited
+  deriving Repr, Inhabited, DecidableEq
 
 /-- balanced search tree over field ids: the kernel looks a field up in ~10 steps instead of
     walking a 500-element list (generated next to `fields`; `ftree_agrees` ties the two) -/
